@@ -40,6 +40,23 @@ struct Harness
     static constexpr std::array<MovedState, N> F_MOVED{Codec<typename PI<P>::T>::MOVED...};
     static constexpr std::array<bool, N> F_TRIV_ASSIGN{std::is_trivially_copy_assignable_v<typename PI<P>::T>...};
 
+    // largest span length the count parameter in front of a VaryingSize can express
+    template <class U>
+    static constexpr std::size_t count_max_of()
+    {
+        if constexpr (std::is_integral_v<U>)
+            return static_cast<std::size_t>(std::min<std::uint64_t>(std::numeric_limits<U>::max(), 1u << 20));
+        else return 0;
+    }
+    static constexpr std::array<std::size_t, N + 1> make_count_max()
+    {
+        std::array<std::size_t, N + 1> r{};
+        std::array<std::size_t, N> own{count_max_of<typename PI<P>::T>()...};
+        for (std::size_t i = 1; i < N; ++i) r[i] = own[i - 1];
+        return r;
+    }
+    static constexpr std::array<std::size_t, N + 1> COUNT_MAX = make_count_max();
+
     static constexpr std::size_t count_kind(Kind k)
     {
         std::size_t n = 0;
